@@ -17,9 +17,9 @@ def run(ctx):
     ctx.rule("R12.b", "per-instance Parameter objects have a single producer: only _instantiated_parameter writes <instance>._param__private.params[key], and it writes the result of _instantiate_param_obj", floor=1)
     ctx.rule("R12.c", "_instantiate_param_obj returns a copy.copy of the class Parameter, gives it fresh watchers and re-copies every mutable-container slot other than default", floor=3)
     ctx.rule("R12.d", "every __set__ definition of a Parameter class carries @instance_descriptor; the wrapper delegates to the per-instance Parameter and returns", floor=4)
-    ctx.rule("R12.e", "_setup_params: instantiate=True parameters are deep-copied per instance, constant ones are referenced (deepcopy=False); _instantiate_param stores deepcopy(default) / default accordingly", floor=3)
     ctx.rule("R12.g", "class-level assignment on a subclass copies the inherited Parameter into the subclass before setting (copy-on-write)", floor=1)
     ctx.rule("R12.m", "setter model: Parameter.__set__ interpreted abstractly on every combination (576) of route x constant/readonly x validation outcome x identity x reference mode x watchers x batching agrees with the specification of this property (see checks/setter_model.py)", floor=1)
+    ctx.rule("R12.k", "constructor model: Parameters._setup_params (with _instantiate_param) interpreted abstractly on 288 combinations of keywords x reference modes (plain value / reference with a value / reference without a value yet / asynchronous reference) x an unknown keyword: own copy of every instantiate=True default and pinned constants before any keyword is applied (and still there when a keyword assigns nothing), exactly the specified assignments, every reference and only references recorded", floor=1)
     ctx.not_decided += ["order-dependent histories (whether the per-instance copy existed before a class-level change) -- the rules make them irrelevant but the behavioural statement is not executed"]
 
     # ------------------------------------------------------------ R12.a
@@ -148,63 +148,9 @@ def run(ctx):
         ctx.fail("R12.d", w, w.node, "instance_descriptor no longer creates/looks up the per-instance Parameter and delegates to it for instance assignments",
                  key="%s::no-delegation" % w.qualname)
 
-    # ------------------------------------------------------------ R12.e
-    sp = ctx.repo.func(P + "Parameters._setup_params")
-    spc = ctx.facts.cfg(sp)
-    inst_calls = [(n, c) for n in spc.live_nodes() for c in calls_in(n) if isinstance(c.func, ast.Attribute) and c.func.attr == "_instantiate_param"]
-    ctx.require(len(inst_calls) >= 2, "_setup_params no longer calls _instantiate_param twice")
-    deep = [c for n, c in inst_calls if not any(k.arg == "deepcopy" for k in c.keywords)]
-    ref = [c for n, c in inst_calls if any(k.arg == "deepcopy" and isinstance(k.value, ast.Constant) and k.value.value is False for k in c.keywords)]
-    # which dict feeds which loop
-    fills = {}
-    for n in spc.live_nodes():
-        if n.kind == "stmt" and isinstance(n.ast, ast.Assign) and isinstance(n.ast.targets[0], ast.Subscript) and isinstance(n.ast.targets[0].value, ast.Name):
-            fills.setdefault(n.ast.targets[0].value.id, []).append(spc.conditions(n))
-    ALLOWED_ATOMS = {"p.instantiate", "p.constant", "pname != 'name'", "pname == 'name'", "p.instantiate and pname != 'name'", "p.constant and pname != 'name'"}
-
-    def selected_by(dname, text):
-        if dname not in fills:
-            return False
-        for c in fills[dname]:
-            if not cond_holds(c, text, True):
-                return False
-            extra = [norm(e) for e, t in c if norm(e) not in ALLOWED_ATOMS and not isinstance(e, ast.BoolOp)]
-            if extra:
-                narrowed.append((dname, extra))
-                return False
-        return True
-    narrowed = []
-    loops = {}
-    for st in walk_stmts(sp.node):
-        if isinstance(st, ast.For) and isinstance(st.iter, ast.Call) and isinstance(st.iter.func, ast.Attribute) and isinstance(st.iter.func.value, ast.Name):
-            for c in ast.walk(st):
-                if isinstance(c, ast.Call) and isinstance(c.func, ast.Attribute) and c.func.attr == "_instantiate_param":
-                    loops[id(c)] = st.iter.func.value.id
-    ok_deep = deep and all(selected_by(loops.get(id(c), "?"), "p.instantiate") for c in deep)
-    ok_ref = ref and all(selected_by(loops.get(id(c), "?"), "p.constant") for c in ref)
-    (ctx.ok if ok_deep else ctx.fail)("R12.e", sp, deep[0] if deep else sp.node,
-                                      "instantiate=True parameters reach _instantiate_param with deepcopy (default True)" if ok_deep else
-                                      "instantiate=True parameters are not deep-copied per instance (mutable defaults are shared)")
-    (ctx.ok if ok_ref else ctx.fail)("R12.e", sp, ref[0] if ref else sp.node,
-                                     "constant parameters are referenced on the instance (deepcopy=False)" if ok_ref else
-                                     "not every constant parameter is referenced on the instance at construction%s: a later class-level set changes what an existing instance holds" % (
-                                         " (selection narrowed by %s)" % ", ".join(narrowed[-1][1]) if narrowed else ""))
-    ip = ctx.repo.func(P + "Parameters._instantiate_param")
-    a = ip.node.args
-    dflt = {x.arg: d for x, d in zip(a.args[-len(a.defaults):], a.defaults)}
-    flag = next((k for k, d in dflt.items() if isinstance(d, ast.Constant) and d.value is True and "copy" in k), None)
-    sel = [st for st in walk_stmts(ip.node) if isinstance(st, ast.Assign) and isinstance(st.value, ast.IfExp) and norm(st.value.body) == "copy.deepcopy"
-           and flag is not None and norm(st.value.test) == flag]
-    ok = False
-    if sel:
-        fn = sel[0].targets[0].id if isinstance(sel[0].targets[0], ast.Name) else None
-        applied = [c for c in ast.walk(ip.node) if isinstance(c, ast.Call) and isinstance(c.func, ast.Name) and c.func.id == fn and c.args
-                   and isinstance(c.args[0], ast.Attribute) and c.args[0].attr == "default"]
-        identity = isinstance(sel[0].value.orelse, ast.Lambda) and norm(sel[0].value.orelse.body) == sel[0].value.orelse.args.args[0].arg
-        ok = bool(applied) and identity
-    (ctx.ok if ok else ctx.fail)("R12.e", ip, ip.node, "_instantiate_param stores deepcopy(default) when deepcopy else default itself" if ok else
-                                 "_instantiate_param no longer selects copy.deepcopy by its deepcopy flag (default True) applied to param_obj.default")
-
+    # R12.e (shape of the two loops in _setup_params and of the copier selection in _instantiate_param) was replaced
+    # by the constructor model R12.k: the shape rule rejected behaviour-preserving rewrites (explicit deepcopy=True,
+    # one loop instead of two), the model interprets both functions.
     # ------------------------------------------------------------ R12.g
     ms = ctx.repo.func(P + "ParameterizedMetaclass.__setattr__")
     mc = ctx.facts.cfg(ms)
@@ -229,3 +175,5 @@ def run(ctx):
     # model-level rule, run last (see DESIGN §10)
     from checks import setter_model
     setter_model.report(ctx, "C12", "R12.m")
+    from checks import ctor_model
+    ctor_model.report(ctx, "C12", "R12.k")
